@@ -55,12 +55,12 @@ EXPLANATION = (
     'triangular face of a pyramid / prism that had a tet face or boundary tri on it still has one after the guarded '
     'operation and after any history of guarded splits, 2-D swaps and vertex moves (_collapse_partial: given the simplicial '
     'neighbour across the removed cell); mixed_interface_exact_split: the guarded split keeps the NUMBER of tets and of '
-    'boundary tris on each such face, i.e. the truth value of C01''s own statement there (faceConforming, the predicate the '
+    'boundary tris on each such face, i.e. the truth value of the C01 statement there (faceConforming, the predicate the '
     'driver evaluates on every accepted operation of a real run); mixed_interface_conforming_split_2d: no hanging node on '
     'a quadrilateral side of a planar grid. Tied by streams mixed_fn (diff: local '
     'configurations with 0..3 neighbours of each kind in every table position, incl. pyramids-without-prisms, '
     'prisms-without-pyramids, hexes only), mixed_smooth (validate: ref_smooth_tet_improve and both interior loops of '
-    'ref_smooth_pass), mixed_run (validate: hooked real passes on hex+pyramid+tet, prism-layer+tet and all-kinds grids; '
+    'ref_smooth_pass), mixed_run (validate: hooked real passes on hex+pyramid+tet, prism-layer+tet, all-kinds, hex-island and planar tri+quad grids; '
     'frozen cells compared with the initial ones at EVERY hook event) and the end-to-end oracle cli_adapt_mixed.')
 
 ASSUMPTIONS = [
